@@ -122,7 +122,7 @@ def run_property(prop_id, cfg, tier, seed):
         if binary and v["inputs"] is not None:
             ok, out = native_replay(binary, v["fn"], v, v["params"], rp)
         json.dump({"property": prop_id, "harness": v["harness"], "check": v["check"], "tags": v["tags"], "inputs": v["inputs"], "sched": v["sched"], "msg": v["msg"],
-                   "native_replay": ok, "native_output_tail": out, "params": v["params"]}, open(rp + ".json", "w"), indent=1)
+                   "fn": v["fn"], "native_replay": ok, "native_output_tail": out, "params": v["params"]}, open(rp + ".json", "w"), indent=1)
         if ok is not True:
             replay_fail.append("%s/%s %s: counterexample did not reproduce natively (%s)" % (v["harness"], v["check"], v["tags"], out[-200:].replace("\n", " | ")))
             continue
